@@ -29,6 +29,7 @@ F_PAGE = 'C09-page-accepts-nonmargin'
 F_TEXT = 'C09-text-replace-keeps-parent'
 F_CLEAN = 'C09-clean-refused-halfway'
 F_DEPTH2 = 'C09-parentstylesheet-depth2'
+F_INORDER = 'C09-inorder-index-not-ignored'
 
 
 def items_of(st):
@@ -137,7 +138,10 @@ class Oracle:
         t = op[0]
         clause = k[0]
         if clause == 'order':
-            if t == 'add' and op[1].kind == 'variables' and in_vars_region(pre['kinds']):
+            if t == 'insord' and op[1].kind in ('namespace', 'variables') and in_fallback_region(pre['kinds'], op[1].kind) \
+                    and op[2] != len(pre['kinds']):
+                return F_INORDER
+            if t in ('add', 'insord') and op[1].kind == 'variables' and in_vars_region(pre['kinds']):
                 # the new @variables rule is the first member of the inverted pair
                 a = [r for r in st.sheet.cssRules if id(r) == k[1]]
                 if a and a[0].type == a[0].VARIABLES_RULE and id(a[0]) not in pre['live']:
@@ -156,13 +160,13 @@ class Oracle:
         if clause == 'link':
             # region: insertRule / add / namespaces[p]=u of a @namespace rule raises NoModificationAllowedErr (the
             # clean-up's deleteRule refused to drop a namespace in use); the flagged object is the new rule
-            is_ns = (t in ('ins', 'add') and op[1].kind == 'namespace') or t == 'nsset'
+            is_ns = (t in ('ins', 'add', 'insord') and op[1].kind == 'namespace') or t == 'nsset'
             if (k[2] == 'parentStyleSheet' and is_ns and out == 'ERR NoModificationAllowedErr'
                     and k[1] not in pre['live']):
                 return F_CLEAN
             return None
         if clause == 'gone':
-            if (k[2] == 'parentStyleSheet' and t == 'add' and op[1].kind == 'charset' and not op[2]
+            if (k[2] == 'parentStyleSheet' and t in ('add', 'insord') and op[1].kind == 'charset' and not op[-1]
                     and pre['kinds'][:1] == ['CHARSET_RULE'] and k[1] == id(st.last_arg)):
                 return F_CHARSET
             if k[2] == 'parentStyleSheet' and t == 'text' and out == 'NONE' and k[1] in pre['topids']:
@@ -175,17 +179,17 @@ class Oracle:
 
     def check_index(self, st, op, out, pre, ops, raising):
         t = op[0]
-        if t not in ('ins', 'add', 'nins') or not out.startswith('OK '):
+        if t not in ('ins', 'add', 'insord', 'nins') or not out.startswith('OK '):
             return
         i = int(out.split()[1])
         spec, via = (op[2], op[4]) if t == 'nins' else (op[1], op[-1])
         rules = pre['cont'].cssRules if t == 'nins' else st.sheet.cssRules
-        if t == 'add' and spec.kind == 'charset' and pre['kinds'][:1] == ['CHARSET_RULE']:
+        if t in ('add', 'insord') and spec.kind == 'charset' and pre['kinds'][:1] == ['CHARSET_RULE']:
             return      # merged into the existing @charset rule: index 0 names that rule
         ok = i < len(rules) and (rules[i] is st.last_arg if not via else id(rules[i]) not in pre['live'])
         if not ok:
             f = None
-            if t in ('ins', 'add') and spec.kind == 'namespace':
+            if t in ('ins', 'add', 'insord') and spec.kind == 'namespace':
                 # region: an earlier @namespace rule (index < i) was removed by the clean-up of this very call
                 now = set(id(r) for r in st.sheet.cssRules)
                 if any(x not in now for x in pre['topids'][:i]):
@@ -287,6 +291,24 @@ def in_vars_region(kinds):
     return False
 
 
+def in_fallback_region(kinds, kind):
+    """region of C09-inorder-index-not-ignored: ordered insert of @namespace / @variables when no rule of that kind
+    exists and no later rule fixes the insertion point — the caller's index is used as it is"""
+    if kind == 'namespace':
+        if 'NAMESPACE_RULE' in kinds:
+            return False
+        start = 0
+        for i, k in enumerate(kinds):
+            if k in ('CHARSET_RULE', 'IMPORT_RULE'):
+                start = i + 1
+        stop = ('VARIABLES_RULE', 'MEDIA_RULE', 'PAGE_RULE', 'STYLE_RULE', 'FONT_FACE_RULE', 'UNKNOWN_RULE', 'COMMENT')
+        return not any(k in stop for k in kinds[start:])
+    if 'VARIABLES_RULE' in kinds:
+        return False
+    stop = ('MEDIA_RULE', 'PAGE_RULE', 'STYLE_RULE', 'FONT_FACE_RULE', 'UNKNOWN_RULE', 'COMMENT')
+    return not any(k in stop for k in kinds)
+
+
 def replay_known(env, finding):
     """run the witness history of a known finding on the implementation; True if the stated clause still fails"""
     from harness.c09_ops import ops_from_json
@@ -307,7 +329,7 @@ def replay_known(env, finding):
         if any(k[0] == want and k not in st.items for k in cur):
             hit = True
         st.items = cur
-        if want == 'index' and out.startswith('OK ') and op[0] in ('ins', 'add') and not op[-1]:
+        if want == 'index' and out.startswith('OK ') and op[0] in ('ins', 'add', 'insord') and not op[-1]:
             i = int(out.split()[1])
             rules = st.sheet.cssRules
             if not (i < len(rules) and rules[i] is st.last_arg):
